@@ -55,7 +55,7 @@ struct Pending {
     words_at: usize,
 }
 
-fn observer(c: PsoCase, iters: u32, data: Arc<Mutex<PsoData>>) -> StepObserver<RealP> {
+fn observer<I: mahf::identifier::Identifier>(c: PsoCase, iters: u32, data: Arc<Mutex<PsoData>>) -> StepObserver<RealP> {
     StepObserver(Box::new(move |_p: &RealP, st: &State<RealP>, ev: StepEvent<RealP>| {
         let name = name_of(ev.component);
         let mut d = data.lock().unwrap();
@@ -69,10 +69,10 @@ fn observer(c: PsoCase, iters: u32, data: Arc<Mutex<PsoData>>) -> StepObserver<R
                         let pops = st.borrow::<Populations<RealP>>();
                         let x: Vec<Vec<f64>> = pops.current().iter().map(|i| i.solution().clone()).collect();
                         drop(pops);
-                        let v = st.try_get_value::<ParticleVelocities<Global>>().unwrap_or_default();
-                        let xp: Vec<Vec<f64>> = st.try_borrow::<BestParticles<RealP, Global>>().map(|b| b.iter().map(|i| i.solution().clone()).collect()).unwrap_or_default();
-                        let xg: Vec<f64> = st.try_borrow::<BestParticle<RealP, Global>>().ok().and_then(|b| b.as_ref().map(|i| i.solution().clone())).unwrap_or_default();
-                        let w = st.try_get_value::<W>().unwrap_or(f64::NAN);
+                        let v = st.try_get_value::<ParticleVelocities<I>>().unwrap_or_default();
+                        let xp: Vec<Vec<f64>> = st.try_borrow::<BestParticles<RealP, I>>().map(|b| b.iter().map(|i| i.solution().clone()).collect()).unwrap_or_default();
+                        let xg: Vec<f64> = st.try_borrow::<BestParticle<RealP, I>>().ok().and_then(|b| b.as_ref().map(|i| i.solution().clone())).unwrap_or_default();
+                        let w = st.try_get_value::<InertiaWeight<ParticleVelocitiesUpdate<I>>>().unwrap_or(f64::NAN);
                         d.pending = Some(Pending { x, v, xp, xg, w, words_at: tape::words_drawn() });
                     }
                 }
@@ -87,7 +87,7 @@ fn observer(c: PsoCase, iters: u32, data: Arc<Mutex<PsoData>>) -> StepObserver<R
                         let pops = st.borrow::<Populations<RealP>>();
                         let xa: Vec<Vec<f64>> = pops.current().iter().map(|i| i.solution().clone()).collect();
                         drop(pops);
-                        let va = st.try_get_value::<ParticleVelocities<Global>>().unwrap_or_default();
+                        let va = st.try_get_value::<ParticleVelocities<I>>().unwrap_or_default();
                         if va.len() != xa.len() {
                             viol("C18 collections velocity-count".into(), format!("{}: {} velocities for {} particles", ctx, va.len(), xa.len()));
                             break 'body;
@@ -141,7 +141,7 @@ fn observer(c: PsoCase, iters: u32, data: Arc<Mutex<PsoData>>) -> StepObserver<R
                         // inertia weight mapping
                         let prog = st.try_get_value::<Progress<ValueOf<Iterations>>>().unwrap_or(f64::NAN);
                         let it = st.try_get_value::<Iterations>().unwrap_or(u32::MAX);
-                        let w = st.try_get_value::<W>().unwrap_or(f64::NAN);
+                        let w = st.try_get_value::<InertiaWeight<ParticleVelocitiesUpdate<I>>>().unwrap_or(f64::NAN);
                         let eprog = it as f64 / iters as f64;
                         if prog.to_bits() != eprog.to_bits() {
                             viol("C18 inertia progress".into(), format!("{}: progress {} at iteration {} of {}", ctx, prog, it, iters));
@@ -170,7 +170,7 @@ fn observer(c: PsoCase, iters: u32, data: Arc<Mutex<PsoData>>) -> StepObserver<R
                         }
                     }
                     if d.inited && (name == "PersonalBestParticlesUpdate" || name == "GlobalBestParticleUpdate" || name == "PersonalBestParticlesInit") {
-                        let bests: Vec<f64> = st.try_borrow::<BestParticles<RealP, Global>>().map(|b| b.iter().map(|i| i.objective().value()).collect()).unwrap_or_default();
+                        let bests: Vec<f64> = st.try_borrow::<BestParticles<RealP, I>>().map(|b| b.iter().map(|i| i.objective().value()).collect()).unwrap_or_default();
                         if name != "GlobalBestParticleUpdate" {
                             if bests != d.my_best {
                                 viol("C18 personal-best not-best-evaluated-position".into(), format!("{}: personal bests {:?}; best value each particle has been evaluated at {:?}", ctx, bests, d.my_best));
@@ -180,7 +180,7 @@ fn observer(c: PsoCase, iters: u32, data: Arc<Mutex<PsoData>>) -> StepObserver<R
                             }
                             d.last_personal = bests.clone();
                         } else {
-                            let g = st.try_borrow::<BestParticle<RealP, Global>>().ok().and_then(|b| b.as_ref().map(|i| i.objective().value()));
+                            let g = st.try_borrow::<BestParticle<RealP, I>>().ok().and_then(|b| b.as_ref().map(|i| i.objective().value()));
                             let m = bests.iter().cloned().fold(f64::INFINITY, f64::min);
                             if !bests.is_empty() && g != Some(m) {
                                 viol("C18 global-best not-best-personal-best".into(), format!("{}: global best {:?}, personal bests {:?}", ctx, g, bests));
@@ -189,13 +189,13 @@ fn observer(c: PsoCase, iters: u32, data: Arc<Mutex<PsoData>>) -> StepObserver<R
                     }
                     if d.inited && !["<seq>", "Loop", "Branch", "Scope"].contains(&name.as_str()) {
                         let np = st.try_borrow::<Populations<RealP>>().ok().and_then(|p| p.get_current().map(|c| c.len()));
-                        let nv = st.try_get_value::<ParticleVelocities<Global>>().ok().map(|v| v.len());
-                        let nb = st.try_borrow::<BestParticles<RealP, Global>>().ok().map(|b| b.len());
+                        let nv = st.try_get_value::<ParticleVelocities<I>>().ok().map(|v| v.len());
+                        let nb = st.try_borrow::<BestParticles<RealP, I>>().ok().map(|b| b.len());
                         if let (Some(a), Some(b), Some(cn)) = (np, nv, nb) {
                             if a != b || a != cn {
                                 viol("C18 collections entry-count".into(), format!("{}: after {}: {} particles, {} velocities, {} personal bests", ctx, name, a, b, cn));
                             }
-                            let h = fnv(&format!("{:?}{:?}", st.try_get_value::<ParticleVelocities<Global>>().ok(), st.try_get_value::<W>().ok()));
+                            let h = fnv(&format!("{:?}{:?}", st.try_get_value::<ParticleVelocities<I>>().ok(), st.try_get_value::<InertiaWeight<ParticleVelocitiesUpdate<I>>>().ok()));
                             d.states.insert(h);
                         }
                     }
@@ -220,7 +220,27 @@ fn spec_for(c: &PsoCase, iters: u32) -> Spec<RealP> {
         problem: Box::new(move || RealP::new(cc.dim, -1.0, 2.0, [FKind::Sphere, FKind::Shifted, FKind::Linear, FKind::Tiny][cc.kind as usize], Instr::new())),
         make: Box::new(move |cond| {
             let c = &c2;
-            if c.assembly == 3 {
+            if c.assembly == 4 {
+                // a swarm under the identifier A, assembled from the identifier-carrying components
+                use mahf::components::swarm::pso::{GlobalBestParticleUpdate, ParticleVelocitiesInit, PersonalBestParticlesInit, PersonalBestParticlesUpdate};
+                use mahf::identifier::A;
+                use mahf::lens::ValueOf;
+                Ok(mahf::Configuration::builder()
+                    .do_(mahf::components::initialization::RandomSpread::new(c.n))
+                    .evaluate()
+                    .update_best_individual()
+                    .do_(pso::pso::<RealP, Global>(
+                        pso::Parameters {
+                            particle_init: mahf::Configuration::builder().do_(ParticleVelocitiesInit::<A>::new(c.v_max)?).do_(PersonalBestParticlesInit::<A>::new()).do_(GlobalBestParticleUpdate::<A>::new()).build_component(),
+                            particle_update: ParticleVelocitiesUpdate::<A>::new_with_id(c.start_w, c.c1, c.c2, c.v_max)?,
+                            constraints: boundary::Saturation::new(),
+                            inertia_weight_update: Some(mahf::components::mapping::Linear::new(c.start_w, c.end_w, ValueOf::<Progress<ValueOf<Iterations>>>::new(), ValueOf::<InertiaWeight<ParticleVelocitiesUpdate<A>>>::new())),
+                            state_update: mahf::Configuration::builder().do_(PersonalBestParticlesUpdate::<A>::new()).do_(GlobalBestParticleUpdate::<A>::new()).build_component(),
+                        },
+                        cond,
+                    ))
+                    .build())
+            } else if c.assembly == 3 {
                 // the stock template with a constraint component that runs a loop of its own in a scope
                 // (the way the ILS template nests its local search)
                 use mahf::lens::ValueOf;
@@ -243,7 +263,7 @@ fn spec_for(c: &PsoCase, iters: u32) -> Spec<RealP> {
                         cond,
                     ))
                     .build())
-            } else if c.assembly == 0 {
+            } else if c.assembly == 0 || c.assembly == 5 {
                 pso::real_pso(pso::RealProblemParameters { num_particles: c.n, start_weight: c.start_w, end_weight: c.end_w, c_one: c.c1, c_two: c.c2, v_max: c.v_max }, cond)
             } else {
                 Ok(mahf::Configuration::builder()
@@ -266,7 +286,18 @@ fn spec_for(c: &PsoCase, iters: u32) -> Spec<RealP> {
         iters,
         size_ok: Box::new(move |_, k| k == n),
         size_rule: String::new(),
-        setup: None,
+        // assembly 5: the stock template with a log rule whose trigger is an iteration bound of its own
+        // (twice the loop's): evaluating it must not disturb the weight schedule
+        setup: if c.assembly == 5 {
+            Some(Box::new(move |st: &mut State<RealP>| {
+                st.configure_log(|cfg| {
+                    cfg.with(mahf::conditions::LessThanN::iterations(2 * iters + 1), mahf::lens::common::BestObjectiveValueLens::entry());
+                    Ok(())
+                })
+            }))
+        } else {
+            None
+        },
     }
 }
 
@@ -285,7 +316,7 @@ pub fn cases(thorough: bool) -> Vec<PsoCase> {
                     if !thorough && sw == 1.2 && vmax != width {
                         continue;
                     }
-                    for assembly in 0..4u8 {
+                    for assembly in 0..6u8 {
                         if assembly > 0 && (sw != 0.9 || (!thorough && vmax != width)) {
                             continue;
                         }
@@ -305,7 +336,8 @@ type CaseOut = (Vec<(String, String)>, u64, Result<(), String>, Vec<u64>);
 fn run_case(c: &PsoCase, iters: u32) -> CaseOut {
     let data = Arc::new(Mutex::new(PsoData::default()));
     let spec = spec_for(c, iters);
-    let (out, _, _) = spec.run_full(Flags::default(), &EvKind::Sequential, Some(observer(c.clone(), iters, data.clone())));
+    let obs = if c.assembly == 4 { observer::<mahf::identifier::A>(c.clone(), iters, data.clone()) } else { observer::<Global>(c.clone(), iters, data.clone()) };
+    let (out, _, _) = spec.run_full(Flags::default(), &EvKind::Sequential, Some(obs));
     let d = std::mem::take(&mut *data.lock().unwrap());
     let mut v = d.violations;
     if let Err(e) = &out.result {
@@ -316,7 +348,7 @@ fn run_case(c: &PsoCase, iters: u32) -> CaseOut {
 
 pub fn run(rep: &mut Report) {
     let thorough = rep.tier == Tier::Thorough;
-    rep.alpha("real_pso and harness-assembled swarms (no inertia update / toroidal repair / a constraint component with a scoped loop of its own): swarm sizes 1..4, dimension 1..2, v_max in {0.05, 1, 10} x domain width, three weight/coefficient sets, three objective functions");
+    rep.alpha("real_pso and harness-assembled swarms (no inertia update / toroidal repair / a constraint component with a scoped loop of its own / all swarm state under the identifier A / a log rule triggered by an iteration bound of its own): swarm sizes 1..4, dimension 1..2, v_max in {0.05, 1, 10} x domain width, three weight/coefficient sets, three objective functions");
     rep.alpha("environment: default generator stream with at most one replaced word (menu of 8 / 19 words) at every draw position; observer around every velocity update, after every inertia mapping, evaluator, personal-best and global-best update");
     rep.assume("which weight scales the old velocity is decided (a) exactly in cases without random terms (c1 = c2 = 0): v_new = clamp(w_stored * v_old), and (b) otherwise by decoding the random factors from the generator words logged during the step (either assignment of the two factors) and comparing the stored against the configured weight; x_after = x_before + v_after is required bit-exactly");
     let iters = if thorough { 4 } else { 3 };
